@@ -179,3 +179,38 @@ def load_known() -> dict[str, dict]:
         return {}
     data = json.loads(KNOWN.read_text())
     return {e["key"]: e for e in data.get("findings", []) if "key" in e}
+
+
+class OnlyConstructs:
+    """Proxy of a check context that keeps only the rule instances whose construct starts with one of the given
+    prefixes (used to run a package-wide rule of one property inside the check of another property, restricted to the
+    modules the second property is anchored in).  Rule texts, requirements and everything else pass through;
+    `undecided` notes of the borrowed rule are dropped."""
+
+    def __init__(self, ctx, prefixes):
+        self._ctx, self._p = ctx, tuple(prefixes)
+
+    def __getattr__(self, name):
+        return getattr(self._ctx, name)
+
+    def _keep(self, construct: str) -> bool:
+        return any(construct.startswith(p) for p in self._p)
+
+    def undecided(self, text):
+        return None
+
+    def check(self, cond, rule, construct, *a, **k):
+        return self._ctx.check(cond, rule, construct, *a, **k) if self._keep(construct) else cond
+
+    def violation(self, rule, construct, *a, **k):
+        if self._keep(construct):
+            self._ctx.violation(rule, construct, *a, **k)
+
+    def ok(self, rule, construct, *a, **k):
+        if self._keep(construct):
+            self._ctx.ok(rule, construct, *a, **k)
+
+    def info(self, rule, construct, *a, **k):
+        if self._keep(construct):
+            self._ctx.info(rule, construct, *a, **k)
+
